@@ -98,6 +98,35 @@ pub fn check_size(id: u8, w: u32, h: u32, all_pixels: bool, lengths: bool) -> (u
                 break;
             }
         }
+        // the same map against a background in which every pixel is on: clearing (x, y) must clear exactly its bit
+        // (a byte-mate that is on must stay on), and setting it again must restore the background
+        {
+            let mut on_bytes = want.clone();
+            for x in 0..w as usize {
+                for yb in 0..bpc {
+                    let rows = (h as usize).saturating_sub(yb * 8).min(8);
+                    on_bytes[4 + x * bpc + yb] = if rows == 8 { 0xFF } else { ((1u16 << rows) - 1) as u8 };
+                }
+            }
+            if let Ok(mut op) = Page::from_bytes(w, h, on_bytes.clone()) {
+                for (x, y) in pixels(w, h, all_pixels && (w as u64 * h as u64) <= 4096) {
+                    evals += 1;
+                    op.set_pixel(x, y, false);
+                    let idx = 4 + x as usize * bpc + (y / 8) as usize;
+                    let bit = 1u8 << (y % 8);
+                    let b = op.as_bytes();
+                    if !(b.len() == on_bytes.len() && b[idx] == on_bytes[idx] & !bit && b.iter().enumerate().all(|(i, &v)| i == idx || v == on_bytes[i])) {
+                        out.push(("pixel-bit-position", "clear-on-full-page".into(), format!("clearing ({},{}) on a {}x{} page with every pixel on should clear exactly bit {} of byte {}; differing bytes: {:?}", x, y, w, h, y % 8, idx, b.iter().enumerate().filter(|(i, v)| **v != on_bytes[*i]).map(|(i, v)| (i, *v)).take(4).collect::<Vec<_>>())));
+                        break;
+                    }
+                    op.set_pixel(x, y, true);
+                    if op.as_bytes() != &on_bytes[..] {
+                        out.push(("pixel-bit-position", "set-on-full-page".into(), format!("setting ({},{}) again on a {}x{} page with every other pixel on does not restore it", x, y, w, h)));
+                        break;
+                    }
+                }
+            }
+        }
         // the same pixel -> bit map on a page built over BORROWED blank bytes (copy-on-write path)
         if let Ok(mut bp) = Page::from_bytes(w, h, &want[..]) {
             for (x, y) in pixels(w, h, all_pixels && (w as u64 * h as u64) <= 4096) {
@@ -225,7 +254,7 @@ pub fn run(ctx: &Ctx) -> Report {
             jobs.push((id as u8, w, h, id % 64 == 0, id % 64 == 0));
         }
     }
-    for (w, h) in [(1000u32, 16u32), (300, 255), (4096, 128), (65535, 1), (1, 65535), (12, 8), (28, 7), (6, 16), (14, 12), (4, 17), (5, 17), (3, 32), (2, 64), (7, 100)] {
+    for (w, h) in [(1000u32, 16u32), (300, 255), (4096, 128), (65535, 1), (1, 65535), (1, 16_777_217), (1, 16_777_313), (2, 16_777_217), (1, 33_554_433), (12, 8), (28, 7), (6, 16), (14, 12), (4, 17), (5, 17), (3, 32), (2, 64), (7, 100)] {
         let small = (w as u64) * (h as u64) <= 20_000;
         jobs.push((7, w, h, small || thorough && (w as u64) * (h as u64) <= 600_000, true));
     }
